@@ -56,10 +56,10 @@ structure Orders where
   chOwnDirect : Bool
   diffLimit : Nat
 
-/-- Sequence keys: 0 = common pts, 1 = qts, 2 + c = channel c. -/
-abbrev SeqKey := Nat
 
-def Entry.seqKey (e : Entry) : Option SeqKey :=
+
+/-- Sequence keys: 0 = common pts, 1 = qts, 2 + c = channel c. -/
+def Entry.seqKey (e : Entry) : Option Nat :=
   match e.kind with
   | .msg | .other | .aff => some 0
   | .qts | .qother => some 1
@@ -174,11 +174,11 @@ structure Mgr where
   internal : List (List Entry) := []
   w : World
   trace : List Event := []
-  ops : List (SeqKey × SOp) := []
+  ops : List (Nat × SOp) := []
   deriving Repr
 
 def Mgr.emit (m : Mgr) (evs : List Event) : Mgr := { m with trace := m.trace ++ evs }
-def Mgr.logOp (m : Mgr) (k : SeqKey) (op : SOp) : Mgr := { m with ops := m.ops ++ [(k, op)] }
+def Mgr.logOp (m : Mgr) (k : Nat) (op : SOp) : Mgr := { m with ops := m.ops ++ [(k, op)] }
 
 /-- The per-sequence view of one call: does it dispatch / persist / set the box / report
 too-long for the sequence with store call `st` and box call `bx`? -/
@@ -194,37 +194,44 @@ def seqCalls (st bx : Call) (closure : List Call) (calls : List Call) : List SCa
   calls.flatMap fun c =>
     if c = .setStateClosure then closure.flatMap (seqCall1 st bx) else seqCall1 st bx c
 
-def evOfSeq (k : SeqKey) : SEv → Event
+def evOfSeq (k : Nat) : SEv → Event
   | .dispatch ids => .dispatch ids
   | .store v => if k = 0 then .storePts v else if k = 1 then .storeQts v else .storeChan (k - 2) v
   | .tooLong => if k = 0 then .tooLong else .chTooLong (k - 2)
 
-def Mgr.getBox (m : Mgr) (k : SeqKey) : Option Box :=
+def Mgr.getBox (m : Mgr) (k : Nat) : Option Box :=
   if k = 0 then some m.pts else if k = 1 then some m.qts
   else (m.chans.find? (·.id == k - 2)).map (·.box)
 
-def Mgr.setBox (m : Mgr) (k : SeqKey) (b : Box) : Mgr :=
+def Mgr.setBox (m : Mgr) (k : Nat) (b : Box) : Mgr :=
   if k = 0 then { m with pts := b } else if k = 1 then { m with qts := b }
   else { m with chans := m.chans.map fun ch => if ch.id == k - 2 then { ch with box := b } else ch }
 
-def applyCallsOf (O : Orders) (k : SeqKey) : List SCall :=
+def applyCallsOf (O : Orders) (k : Nat) : List SCall :=
   if k = 0 then seqCalls .storePts .bad [] O.applyPts
   else if k = 1 then seqCalls .storeQts .bad [] O.applyQts
   else seqCalls .storeChannelPts .bad [] O.chApplyPts
 
 /-- The apply callback of sequence `k` (`applyQts` has no marker handling: qts markers do not exist). -/
-def applyCfgOf (O : Orders) (mk : Nat → Bool) (k : SeqKey) : ACfg :=
+def applyCfgOf (O : Orders) (mk : Nat → Bool) (k : Nat) : ACfg :=
   { calls := applyCallsOf O k
     breakAtMarker := if k = 0 then O.applyPtsBreak else if k = 1 then false else O.chApplyPtsBreak
     isMarker := mk }
 
 /-- Run one per-sequence op on sequence `k` (Part A's `sstep`), emit its events, log it. -/
-def Mgr.seqOp (O : Orders) (m : Mgr) (k : SeqKey) (op : SOp) : Mgr :=
+def Mgr.seqOp (O : Orders) (m : Mgr) (k : Nat) (op : SOp) : Mgr :=
   match m.getBox k with
   | none => m
   | some b =>
     let r := sstep (applyCfgOf O (mkOf m.w.log) k) b op
     ((m.setBox k r.1).emit (r.2.map (evOfSeq k))).logOp k op
+
+/-- The same without emitting: used where one global event belongs to two sequences (a common
+difference dispatches one batch and writes one `SetState` for pts and qts together). -/
+def Mgr.seqOpQuiet (O : Orders) (m : Mgr) (k : Nat) (op : SOp) : Mgr :=
+  match m.getBox k with
+  | none => m
+  | some b => (m.setBox k (sstep (applyCfgOf O (mkOf m.w.log) k) b op).1).logOp k op
 
 /-- `ptsSorter.Less`. -/
 def sortRank (e : Entry) : Nat :=
@@ -251,105 +258,122 @@ def sortUpdates (l : List Entry) : List Entry := l.foldr insertSorted []
 def Mgr.pushChan (m : Mgr) (c : Nat) (it : ChItem) : Mgr :=
   { m with chans := m.chans.map fun ch => if ch.id == c then { ch with queue := ch.queue ++ [it] } else ch }
 
+/-- Routing of one update of a container (`applyCombined`'s loop body). -/
+def Mgr.route (O : Orders) (m : Mgr) (e : Entry) : Mgr :=
+  match e.kind with
+  | .msg | .other => m.seqOp O 0 (.push e)
+  | .qts | .qother => m.seqOp O 1 (.push e)
+  | .chmsg | .chother => m.pushChan e.chan (.upd e)
+  | .plain | .aff | .chaff => m
+
 /-- `internalState.applyCombined` for a container without seq/date. -/
 def Mgr.applyCombined (O : Orders) (m : Mgr) (container : List Entry) : Mgr :=
   let sorted := sortUpdates container
-  let m := sorted.foldl (fun m e =>
-    match e.kind with
-    | .msg | .other => m.seqOp O 0 (.push e)
-    | .qts | .qother => m.seqOp O 1 (.push e)
-    | .chmsg | .chother => m.pushChan e.chan (.upd e)
-    | .plain | .aff | .chaff => m) m
+  let m := sorted.foldl (fun m e => m.route O e) m
   let plains := sorted.filter (·.kind == .plain)
   if plains.isEmpty then m else m.emit [.dispatch (plains.map (·.id))]
 
 def ownCommon (e : Entry) : Bool :=
   e.kind == .msg || e.kind == .other || e.kind == .qts || e.kind == .qother
 
+/-- The statements of `internalState.getDifference` before the type switch: clear the gaps, ask
+the server. -/
+def Mgr.diffPreludeStep (O : Orders) (st : Mgr × Option DiffAns) (c : Call) : Mgr × Option DiffAns :=
+  match c with
+  | .clearPts => (st.1.seqOp O 0 .clear, st.2)
+  | .clearQts => (st.1.seqOp O 1 .clear, st.2)
+  | .apiDiff =>
+    let r := st.1.w.commonDiff st.1.pts.state st.1.qts.state
+    (({ st.1 with w := r.1 }).emit [.apiDiff st.1.pts.state st.1.qts.state], some r.2)
+  | _ => st
+
+/-- The `setState` closure: one `SetState` event; the pts and the qts box take their new
+positions through their own per-sequence view of the whole branch. -/
+def Mgr.diffSetState (O : Orders) (calls : List Call) (p q : Int) (ptsDirect qtsDirect : List Entry) (m : Mgr) : Mgr :=
+  let m := O.diffSetState.foldl (fun (m : Mgr) c => if c = .storeState then m.emit [.storeState p q] else m) m
+  let m := m.seqOpQuiet O 0 (.seq (seqCalls .storeState .boxSetPts O.diffSetState calls) p ptsDirect)
+  m.seqOpQuiet O 1 (.seq (seqCalls .storeState .boxSetQts O.diffSetState calls) q qtsDirect)
+
+/-- One call of the `updates.difference` / `updates.differenceSlice` branch. -/
+def Mgr.diffBranchStep (O : Orders) (calls : List Call) (msgs enc own rest : List Entry) (p q : Int)
+    (m : Mgr) (c : Call) : Mgr :=
+  match c with
+  | .reroute => if rest.isEmpty then m else m.applyCombined O rest
+  | .dispatch =>
+    if (msgs ++ enc ++ own).isEmpty then m else m.emit [.dispatch ((msgs ++ enc ++ own).map (·.id))]
+  | .setStateClosure =>
+    m.diffSetState O calls p q ((msgs ++ own).filter (·.seqKey == some 0)) ((enc ++ own).filter (·.seqKey == some 1))
+  | _ => m
+
 /-- `internalState.getDifference`. -/
 def Mgr.getDifference (O : Orders) : Nat → Mgr → Mgr
   | 0, m => m
   | fuel + 1, m =>
-    -- prelude: clear gaps, ask the server
-    let (m, ans) := O.diffPrelude.foldl (fun (st : Mgr × Option DiffAns) c =>
-      let m := st.1
-      match c with
-      | .clearPts => (m.seqOp O 0 .clear, st.2)
-      | .clearQts => (m.seqOp O 1 .clear, st.2)
-      | .apiDiff =>
-        let r := m.w.commonDiff m.pts.state m.qts.state
-        (({ m with w := r.1 }).emit [.apiDiff m.pts.state m.qts.state], some r.2)
-      | _ => st) (m, none)
-    match ans with
+    let st := O.diffPrelude.foldl (Mgr.diffPreludeStep O) (m, none)
+    let m := st.1
+    match st.2 with
     | none => m
     | some .empty => m   -- SetDateSeq / seq.SetState only: no pts/qts effect
     | some (.tooLong p) =>
-      let calls := O.diffTooLong
-      let m := m.seqOp O 0 (.seq (seqCalls .storePts .boxSetPts [] calls) p [])
-      if calls.contains .recurse then Mgr.getDifference O fuel m else m
+      let m := m.seqOp O 0 (.seq (seqCalls .storePts .boxSetPts [] O.diffTooLong) p [])
+      if O.diffTooLong.contains .recurse then Mgr.getDifference O fuel m else m
     | some (.diff msgs enc others p q slice) =>
       let calls := if slice then O.diffSlice else O.diffDifference
       let own := if O.ownDirect then others.filter ownCommon else []
       let rest := if O.ownDirect then others.filter (fun e => !ownCommon e) else others
-      -- interpret the branch: re-route, dispatch, persist+set, recurse — in the regenerated order
-      let m := calls.foldl (fun (m : Mgr) c =>
-        match c with
-        | .reroute => if rest.isEmpty then m else m.applyCombined O rest
-        | .dispatch =>
-          let batch := msgs ++ enc ++ own
-          if batch.isEmpty then m else m.emit [.dispatch (batch.map (·.id))]
-        | .setStateClosure =>
-          O.diffSetState.foldl (fun (m : Mgr) c =>
-            match c with
-            | .storeState => m.emit [.storeState p q]
-            | .boxSetPts => { m with pts := { m.pts with state := p } }
-            | .boxSetQts => { m with qts := { m.qts with state := q } }
-            | _ => m) m
-        | _ => m) m
-      -- the same branch as seen by the pts and the qts sequence (logged for the replay)
-      let ptsDirect := (msgs ++ own).filter (·.seqKey == some 0)
-      let qtsDirect := (enc ++ own).filter (·.seqKey == some 1)
-      let m := m.logOp 0 (.seq (seqCalls .storeState .boxSetPts O.diffSetState calls) p ptsDirect)
-      let m := m.logOp 1 (.seq (seqCalls .storeState .boxSetQts O.diffSetState calls) q qtsDirect)
+      -- interpret the branch: re-route, dispatch, persist+set — in the regenerated order
+      let m := calls.foldl (Mgr.diffBranchStep O calls msgs enc own rest p q) m
       if calls.contains .recurse then Mgr.getDifference O fuel m else m
+
+def Mgr.chDiffPreludeStep (O : Orders) (c : Nat) (st : Mgr × Option ChDiffAns) (call : Call) : Mgr × Option ChDiffAns :=
+  match call with
+  | .clearPts => (st.1.seqOp O (2 + c) .clear, st.2)
+  | .apiChDiff =>
+    match st.1.getBox (2 + c) with
+    | none => st
+    | some b =>
+      let r := st.1.w.chanDiff c b.state
+      (({ st.1 with w := r.1 }).emit [.apiChDiff c b.state], some r.2)
+  | _ => st
 
 /-- `channelState.getDifference` for channel `c`. -/
 def Mgr.chGetDifference (O : Orders) (c : Nat) : Nat → Mgr → Mgr
   | 0, m => m
   | fuel + 1, m =>
-    let k := 2 + c
-    let (m, ans) := O.chDiffPrelude.foldl (fun (st : Mgr × Option ChDiffAns) call =>
-      let m := st.1
-      match call with
-      | .clearPts => (m.seqOp O k .clear, st.2)
-      | .apiChDiff =>
-        match m.getBox k with
-        | none => st
-        | some b =>
-          let r := m.w.chanDiff c b.state
-          (({ m with w := r.1 }).emit [.apiChDiff c b.state], some r.2)
-      | _ => st) (m, none)
-    match ans with
+    let st := O.chDiffPrelude.foldl (Mgr.chDiffPreludeStep O c) (m, none)
+    let m := st.1
+    match st.2 with
     | none => m
-    | some (.tooLong p) => m.seqOp O k (.seq (seqCalls .storeChannelPts .boxSetPts [] O.chDiffTooLong) p [])
-    | some (.empty p) => m.seqOp O k (.seq (seqCalls .storeChannelPts .boxSetPts [] O.chDiffEmpty) p [])
+    | some (.tooLong p) => m.seqOp O (2 + c) (.seq (seqCalls .storeChannelPts .boxSetPts [] O.chDiffTooLong) p [])
+    | some (.empty p) => m.seqOp O (2 + c) (.seq (seqCalls .storeChannelPts .boxSetPts [] O.chDiffEmpty) p [])
     | some (.diff msgs others p final) =>
       let calls := O.chDiffDifference
       let own := if O.chOwnDirect then others else []
       let rest := if O.chOwnDirect then [] else others
       let m := if calls.contains .sendOut ∧ !rest.isEmpty then { m with internal := m.internal ++ [rest] } else m
-      let m := m.seqOp O k (.seq (seqCalls .storeChannelPts .boxSetPts [] calls) p (msgs ++ own))
+      let m := m.seqOp O (2 + c) (.seq (seqCalls .storeChannelPts .boxSetPts [] calls) p (msgs ++ own))
       if calls.contains .recurse ∧ !final then Mgr.chGetDifference O c fuel m else m
 
-/-- One item of a channel worker's queue (`channelState.handleUpdate` / `handleTooLong`). -/
-def Mgr.chanItem (O : Orders) (fuel : Nat) (m : Mgr) (c : Nat) : ChItem → Mgr
+/-- One item of a channel worker's queue (`channelState.handleUpdate` / `handleAffected` /
+`handleTooLong`). -/
+def Mgr.chanItem (O : Orders) (fuel : Nat) (c : Nat) (m : Mgr) : ChItem → Mgr
   | .upd e => m.seqOp O (2 + c) (.push e)
   | .tooLong none => m.chGetDifference O c fuel
   | .tooLong (some p) =>
     match m.getBox (2 + c) with
     | none => m
     | some b =>
-      if p - b.state > (O.diffLimit : Int) then m.emit [.chTooLong c] else m.chGetDifference O c fuel
+      if p - b.state > (O.diffLimit : Int) then m.seqOp O (2 + c) (.seq cbOnlyShape 0 [])
+      else m.chGetDifference O c fuel
+
+/-- A channel worker handles what is in its queue now (items enqueued meanwhile wait for the next
+round). -/
+def Mgr.drainChan (O : Orders) (fuel : Nat) (m : Mgr) (c : Nat) : Mgr :=
+  match m.chans.find? (·.id == c) with
+  | none => m
+  | some ch =>
+    let m' := { m with chans := m.chans.map fun x => if x.id == c then { x with queue := [] } else x }
+    ch.queue.foldl (Mgr.chanItem O fuel c) m'
 
 /-- Run every channel worker until its queue is empty, then let the main loop handle what the
 workers handed over (`internalQueue`), until nothing is left. -/
@@ -359,18 +383,10 @@ def Mgr.settle (O : Orders) : Nat → Mgr → Mgr
     let busy := m.chans.any (fun ch => !ch.queue.isEmpty) || !m.internal.isEmpty
     if !busy then m
     else
-      let m := m.chans.foldl (fun (m : Mgr) ch0 =>
-        let c := ch0.id
-        -- drain this worker's queue (items enqueued meanwhile are handled in the next round)
-        match m.chans.find? (·.id == c) with
-        | none => m
-        | some ch =>
-          let items := ch.queue
-          let m := { m with chans := m.chans.map fun x => if x.id == c then { x with queue := [] } else x }
-          items.foldl (fun m it => m.chanItem O fuel c it) m) m
+      let m := (m.chans.map (·.id)).foldl (Mgr.drainChan O fuel) m
       let conts := m.internal
       let m := { m with internal := [] }
-      let m := conts.foldl (fun m cont => m.applyCombined O cont) m
+      let m := conts.foldl (Mgr.applyCombined O) m
       Mgr.settle O fuel m
 
 inductive Action where
@@ -417,11 +433,11 @@ def Mgr.act (O : Orders) (m : Mgr) : Action → Mgr
   | .tooLong => m.getDifference O fuel0
   | .chTooLong c => m.pushChan c (.tooLong (some (m.w.serverChan c)))
   | .wait =>
-    let m := if m.pts.armed then ({ m with pts := { m.pts with armed := false } }).getDifference O fuel0 else m
-    let m := if m.qts.armed then ({ m with qts := { m.qts with armed := false } }).getDifference O fuel0 else m
-    m.chans.foldl (fun (m : Mgr) ch0 =>
-      match m.getBox (2 + ch0.id) with
-      | some b => if b.armed then (m.setBox (2 + ch0.id) { b with armed := false }).chGetDifference O ch0.id fuel0 else m
+    let m := if m.pts.armed then (m.seqOp O 0 .fire).getDifference O fuel0 else m
+    let m := if m.qts.armed then (m.seqOp O 1 .fire).getDifference O fuel0 else m
+    (m.chans.map (·.id)).foldl (fun (m : Mgr) c =>
+      match m.getBox (2 + c) with
+      | some b => if b.armed then (m.seqOp O (2 + c) .fire).chGetDifference O c fuel0 else m
       | none => m) m
   | .slice n => { m with w := { m.w with slice := n } }
   | .chSlice n => { m with w := { m.w with chSlice := n } }
@@ -434,7 +450,7 @@ def Mgr.start (O : Orders) (w : World) (pts qts : Int) (chans : List (Nat × Int
   let m : Mgr := { pts := { state := pts }, qts := { state := qts },
                    chans := chans.map fun c => { id := c.1, box := { state := c.2 } }, w := w }
   let m := m.getDifference O fuel0
-  let m := m.chans.foldl (fun (m : Mgr) ch => m.chGetDifference O ch.id fuel0) m
+  let m := (m.chans.map (·.id)).foldl (fun (m : Mgr) c => m.chGetDifference O c fuel0) m
   m.settle O fuel0
 
 def Mgr.runActions (O : Orders) (m : Mgr) (as : List Action) : Mgr :=
@@ -442,13 +458,28 @@ def Mgr.runActions (O : Orders) (m : Mgr) (as : List Action) : Mgr :=
 
 /-! ### Per-sequence views of a scenario (for the replay through Part A) -/
 
-def seqLog (log : List Entry) (k : SeqKey) : List Entry := log.filter (·.seqKey == some k)
+/-- Sequence keys of a scenario: pts, qts and every tracked channel. -/
+def seqKeys (chans : List (Nat × Int)) : List Nat := 0 :: 1 :: chans.map (fun c => 2 + c.1)
 
-def opsOf (ops : List (SeqKey × SOp)) (k : SeqKey) : List SOp := (ops.filter (·.1 == k)).map (·.2)
+/-- Position of sequence `k` in a (pts, qts, channels) triple. -/
+def initOf (p q : Int) (chans : List (Nat × Int)) (k : Nat) : Int :=
+  if k = 0 then p else if k = 1 then q else ((chans.find? (·.1 == k - 2)).map (·.2)).getD 0
+
+
+def seqLog (log : List Entry) (k : Nat) : List Entry := log.filter (·.seqKey == some k)
+
+/-- The hypotheses the manager-level theorems make about a scenario, as a decidable check (the
+driver evaluates it on every scenario): distinct entry ids; for every tracked sequence the log
+tiles the positions above a non-negative origin; pts and qts are tracked. -/
+def scnOK (log : List Entry) (keys : List Nat) (org : Nat → Int) : Bool :=
+  decide ((log.map (·.id)).Nodup) && keys.all (fun k => tiled (org k) (seqLog log k) && decide (0 ≤ org k))
+    && keys.contains 0 && keys.contains 1
+
+def opsOf (ops : List (Nat × SOp)) (k : Nat) : List SOp := (ops.filter (·.1 == k)).map (·.2)
 
 /-- Events of the global trace that concern sequence `k`, with dispatch batches restricted to
 that sequence's entries. -/
-def projSeq (log : List Entry) (k : SeqKey) : List Event → List SEv
+def projSeq (log : List Entry) (k : Nat) : List Event → List SEv
   | [] => []
   | ev :: r =>
     (match ev with
